@@ -27,12 +27,13 @@ fn classify(msg: &str) -> String {
 
 macro_rules! case {
     ($m:ident, $val:expr, $sexpr:expr) => {{
-        for path in ["once", "multi", "n2", "al1"] {
+        for path in ["once", "multi", "n2", "al1", "al0"] {
             let v = $val;
             let u = match path {
                 "once" => Unimock::new(OutMock::$m.some_call(matching!()).returns(v)),
                 "multi" => Unimock::new(OutMock::$m.each_call(matching!()).returns(v)),
                 "al1" => Unimock::new(OutMock::$m.some_call(matching!()).returns(v).at_least_times(1)),
+                "al0" => Unimock::new(OutMock::$m.some_call(matching!()).returns(v).at_least_times(0)),
                 _ => Unimock::new(OutMock::$m.some_call(matching!()).returns(v).n_times(2)),
             };
             let mut outs = vec![];
